@@ -384,6 +384,10 @@ func (re *Regexp) findAllRunesIndex(runner *Runner, input []rune, startAt, n int
 		startAt = m.textpos
 		previousMatchLength = m.RuneLength
 	}
+	if len(out) == 0 {
+		// no match: nil, like regexp's FindAll methods, also when n > 0 pre-allocated the result
+		return nil, nil
+	}
 	return out, nil
 }
 
